@@ -199,4 +199,50 @@ def expectedTxs : List Tx → Nat → Nat → List Ast.Transaction
 
 def expected (j : Journal) : Ast.Journal := ⟨expectedTxs j 1 0, [], [], []⟩
 
+/-! ### the same journals with a chosen line end (LF or CR LF)
+
+  `printC cr` writes the journal with `"\r\n"` instead of `"\n"` when `cr` is set;
+  `expectedC cr` is the tree that text was written from: the same nodes, lines and columns, every
+  byte offset counted in the text with the longer line ends.  `printC false = print`,
+  `expectedC false = expected` (`HL/Lemmas/GCoreCrlf.lean`). -/
+
+/-- the line end -/
+def eolB (cr : Bool) : Bytes := if cr then [0x0D, 0x0A] else [0x0A]
+
+def printPostingsC (cr : Bool) : List Posting → Bytes
+  | [] => []
+  | p :: ps => p.print ++ eolB cr ++ printPostingsC cr ps
+
+def Tx.printC (cr : Bool) (t : Tx) : Bytes := t.header ++ eolB cr ++ printPostingsC cr t.postings
+
+def printC (cr : Bool) : Journal → Bytes
+  | [] => []
+  | [t] => t.printC cr
+  | t :: ts => t.printC cr ++ eolB cr ++ printC cr ts
+
+def expectedPostingsC (cr : Bool) : List Posting → Nat → Nat → List Ast.Posting
+  | [], _, _ => []
+  | p :: ps, ln, o => p.expected ln o :: expectedPostingsC cr ps (ln + 1) (o + p.print.length + (eolB cr).length)
+
+def Tx.expectedC (cr : Bool) (t : Tx) (ln o : Nat) : Ast.Transaction :=
+  let d := t.date.print.length
+  { date := ⟨digitsNat t.date.y, digitsNat t.date.m, digitsNat t.date.d, ⟨⟨ln, 1, o⟩, ⟨ln, 1 + d, o + d⟩⟩⟩
+    date2 := none
+    status := .none
+    code := []
+    description := t.descr
+    payee := []
+    note := []
+    postings := expectedPostingsC cr t.postings (ln + 1) (o + t.header.length + (eolB cr).length)
+    tags := []
+    comments := []
+    range := ⟨⟨ln, 1, o⟩, ⟨ln + 1 + t.postings.length, 1, o + (t.printC cr).length⟩⟩ }
+
+def expectedTxsC (cr : Bool) : List Tx → Nat → Nat → List Ast.Transaction
+  | [], _, _ => []
+  | t :: ts, ln, o =>
+    t.expectedC cr ln o :: expectedTxsC cr ts (ln + t.postings.length + 2) (o + (t.printC cr).length + (eolB cr).length)
+
+def expectedC (cr : Bool) (j : Journal) : Ast.Journal := ⟨expectedTxsC cr j 1 0, [], [], []⟩
+
 end HL.GCore
